@@ -349,7 +349,8 @@ func (s *HopServer) AuthorizeKey(user string, publicKey keys.DHPublicKey) error 
 	}
 	akeys, err := core.ParseAuthorizedKeys(f)
 	if err != nil {
-		return nil
+		logrus.Errorf("error parsing authkeys file at path %s: %s", path, err)
+		return err
 	}
 	logrus.Info("successfully parsed authorized keys file")
 	if akeys.Allowed(publicKey) {
